@@ -158,7 +158,14 @@ class ClassAnalysis:
         one = self.base.methods.get(K.GEN_ONE)
         if two is None or one is None:
             raise AnalysisError("the constraint generators %s / %s are not defined by the function base class" % (K.GEN_TWO, K.GEN_ONE))
-        self.gens = {K.GEN_TWO: K.analyse_generator(repo, two, 2), K.GEN_ONE: K.analyse_generator(repo, one, 1)}
+        self.gen_error = None
+        try:
+            self.gens = {K.GEN_TWO: K.analyse_generator(repo, two, 2), K.GEN_ONE: K.analyse_generator(repo, one, 1)}
+        except AnalysisError as ex:
+            # the generators are outside the fragment of the structural analysis: the hooks cannot be interpreted symbolically either; the unrolled
+            # generators (R-GENPROG) and hooks (R-HOOKPROG) decide, or the rules that need this analysis raise the error
+            self.gen_error = str(ex)
+            self.gens = {}
         base_hook = self.base.methods.get(K.HOOK)
         self.families = []
         for c in repo.subclasses(self.base):
@@ -170,6 +177,8 @@ class ClassAnalysis:
         self.hook_errors = {}
         for c in self.families:
             try:
+                if self.gen_error:
+                    raise AnalysisError(self.gen_error)
                 self.hooks[c.name] = K.analyse_hook(repo, c, self.gens)
             except AnalysisError as ex:
                 # outside the fragment of the hook interpreter: the family has no emissions here; its formulas are decided by the unrolled hook
@@ -291,6 +300,7 @@ def r_formula(ctx, side, only=None):
             if v is None:
                 raise AnalysisError(ca.hook_errors[fam])
             ctx.notes.append("R-FORMULA %s: hook outside the fragment of the hook interpreter (%s); decided by the unrolled hook (R-HOOKPROG)" % (fam, ca.hook_errors[fam]))
+            n_cond += len(ca.ref.get(fam, []))
             continue
         m = ca.matches[fam]
         for em in hook.emissions:
@@ -350,9 +360,25 @@ def r_formula(ctx, side, only=None):
 # ---------------------------------------------------------------------------------------------------
 # pair domain rules (C04)
 # ---------------------------------------------------------------------------------------------------
+def _generators_by_program(ctx, ca, clause, rule):
+    """When the structural analysis of the generators is not available: True if the unrolled generators (R-GENPROG, given clause) decide instead,
+    AnalysisError otherwise."""
+    if not ca.gen_error:
+        return False
+    from . import genprog
+    if ("generators", clause) not in ctx.program_ok:
+        genprog.r_generators(ctx, {clause})
+    if ctx.program_ok.get(("generators", clause)):
+        ctx.notes.append("%s: generators outside the structural analysis (%s); decided by the unrolled generators (R-GENPROG %s)" % (rule, ca.gen_error, clause))
+        return True
+    raise AnalysisError(ca.gen_error)
+
+
 def r_skip(ctx):
     """The pair generator skips exactly: a sample paired with itself, and -- under the symmetry flag -- the pairs i > j."""
     ca = get(ctx.repo)
+    if _generators_by_program(ctx, ca, "emit", "R-SKIP"):
+        return 20, 8          # (call sites, symmetric sites) are counts of the structural analysis; the unrolled generators decided
     g = ca.gens[K.GEN_TWO]
     fn = g.fn
     where = loc(fn, g.cb_stmt)
@@ -430,6 +456,7 @@ def r_diag(ctx):
 def r_one_and_lmidom(ctx):
     """The one-list generator, the pair generator and every LMI builder range over the whole sample lists."""
     ca = get(ctx.repo)
+    _generators_by_program(ctx, ca, "emit", "R-ONE")
     for name, g in ca.gens.items():
         for k, lp in enumerate(g.loops):
             ctx.ob("R-ONE", "Function.%s::loop%d" % (name, k + 1), lp["whole"],
@@ -454,6 +481,8 @@ def r_one_and_lmidom(ctx):
                    "matrix sized by the lengths of %s and filled at [i, j] by two loops over the whole lists" % (list(em.lists),) if ok else
                    "matrix dims %s / index loops %s / lists %s: the LMI does not range over all pairs of samples"
                    % (em.dims, getattr(em, "index_loops", None), em.lists), em.where)
+    for fam in sorted(ca.hook_errors):
+        n += sum(1 for r in ca.ref.get(fam, []) if r["dom"].startswith("lmi"))      # decided on the unrolled hook (R-HOOKPROG)
     ctx.count("class LMI builders", n)
     return n
 
@@ -534,6 +563,11 @@ def r_class_lmi_symmetric(ctx):
                    "entry(i,j) - entry(j,i) = %s is not identically zero: the solver is given entry equalities whose multipliers the "
                    "certificate drops" % diff, em.where)
             ctx.sample({"rule": "R-LMIDUAL", "family": c.name, "entry": str(em.entry), "symmetrised": em.symmetrised})
+    failed = sorted(ca.hook_errors)
+    if failed:
+        from . import hookprog
+        n += hookprog.class_lmis_symmetric(ctx, only=set(failed))
+        ctx.notes.append("R-LMIDUAL: class LMIs of %s examined on the unrolled hooks (hooks outside the hook interpreter)" % ", ".join(failed))
     ctx.count("class LMI builders", n)
     return n
 
